@@ -183,7 +183,7 @@ var scripts = [][]rune{
 // oddRunes look like blanks or like nothing but are ordinary data for the parser: no-break space,
 // zero-width space, soft hyphen, combining acute accent, ideographic space. They are only used
 // inside names (the ends of notes are trimmed with Unicode rules by design).
-var oddRunes = []rune("\u00a0\u200b\u00ad\u0301\u3000")
+var oddRunes = []rune("\u00a0\u200b\u00ad\u0301\u3000\ufeff")
 
 // NameOpts selects the alphabet of generated names.
 type NameOpts struct {
